@@ -13,6 +13,10 @@ Writer in three phases (`decided`, `compress`):
   compressing — header block sent with Content-Encoding / Vary (Content-Length dropped, Content-Type
                 sniffed from the held-back bytes when the handler set none), body through the encoder.
 
+`Flush` returns at once when the writer underneath is not an http.Flusher; the handler's Flush operation
+exists for the model only when it is one (the harness's dry run decides that the same way the plain
+handler's type assertion does).
+
 The encoder is abstract: `plain` records what was handed to it, `closed` whether its stream was
 finished; the codec contract (decode ∘ encode-stream = concatenation, for the real gzip / brotli
 codecs) is what the harness checks by decoding, and what `Codec` states for the theorems.
